@@ -375,9 +375,9 @@ type harness struct {
 	st *vh.Stats
 }
 
-// emit runs one (name, raw) pair through boxo and writes the case. It returns
-// whether any validation entry point accepted.
-func (h *harness) emit(label string, nameKey keyPair, raw []byte) bool {
+// oracleFor computes, without boxo, what libp2p / SHA-256 / time.Parse say about the
+// byte strings occurring in raw (and the extra key bytes): the Coq oracle tables.
+func (h *harness) oracleFor(nameKey keyPair, raw []byte, extraKeys [][]byte, render func([]byte) string) (oracle string, future bool, rawValue []byte, haveValue bool) {
 	t := h.t
 	// ---- oracle tables, computed without boxo ----
 	var pb ipns_pb.IpnsRecord
@@ -401,23 +401,24 @@ func (h *harness) emit(label string, nameKey keyPair, raw []byte) bool {
 		if err != nil {
 			return
 		}
-		qKeys = append(qKeys, vh.Pair(vh.Bytes(b), vh.Bytes(cn)))
+		qKeys = append(qKeys, vh.Pair(render(b), render(cn)))
 		if pid, err := peer.IDFromPublicKey(pk); err == nil {
 			if dec, err := mh.Decode([]byte(pid)); err == nil && dec.Code != mh.IDENTITY {
-				qSha = append(qSha, vh.Pair(vh.Bytes(cn), vh.Bytes(dec.Digest)))
+				qSha = append(qSha, vh.Pair(render(cn), render(dec.Digest)))
 			}
 		}
 		ok, verr := pk.Verify(append([]byte("ipns-signature:"), data...), sig2)
-		qVerify = append(qVerify, vh.Pair(vh.Bytes(cn), vh.Bool(ok && verr == nil)))
+		qVerify = append(qVerify, vh.Pair(render(cn), vh.Bool(ok && verr == nil)))
 	}
 	addKey(embedded)
 	if nameKey.inline {
 		addKey(nameKey.digest)
 	}
+	for _, kb := range extraKeys {
+		addKey(kb)
+	}
 	// the Validity string inside the signed document, and what time.Parse makes of it
-	future := true
-	var rawValue []byte
-	haveValue := false
+	future = true
 	if pbOK && len(data) > 0 {
 		nb := basicnode.Prototype__Map{}.NewBuilder()
 		if err := dagcbor.Decode(nb, bytes.NewReader(data)); err == nil {
@@ -425,7 +426,7 @@ func (h *harness) emit(label string, nameKey keyPair, raw []byte) bool {
 			if v, err := nd.LookupByString("Validity"); err == nil {
 				if vb, err := v.AsBytes(); err == nil {
 					tm, perr := time.Parse(time.RFC3339Nano, string(vb))
-					qTimes = append(qTimes, vh.Pair(vh.Bytes(vb), instantOpt(tm, perr)))
+					qTimes = append(qTimes, vh.Pair(render(vb), instantOpt(tm, perr)))
 					if perr == nil {
 						diff := time.Until(tm)
 						if diff < 48*time.Hour && diff > -48*time.Hour {
@@ -442,7 +443,14 @@ func (h *harness) emit(label string, nameKey keyPair, raw []byte) bool {
 			}
 		}
 	}
-	oracle := vh.App("mkOracle", vh.List(qKeys), vh.List(qSha), vh.List(qVerify), vh.Bytes(data), vh.Bytes(sig2), vh.List(qTimes))
+	oracle = vh.App("mkOracle", vh.List(qKeys), vh.List(qSha), vh.List(qVerify), render(data), render(sig2), vh.List(qTimes))
+	return
+}
+
+// emit runs one (name, raw) pair through boxo and writes the case. It returns
+// whether any validation entry point accepted.
+func (h *harness) emit(label string, nameKey keyPair, raw []byte) bool {
+	oracle, future, rawValue, haveValue := h.oracleFor(nameKey, raw, nil, vh.Bytes)
 
 	// ---- boxo ----
 	rec, uerr := ipns.UnmarshalRecord(raw)
@@ -500,6 +508,68 @@ func (h *harness) emit(label string, nameKey keyPair, raw []byte) bool {
 	return accepted
 }
 
+// B renders a byte string as a Coq list of Z; long runs of one byte are written
+// as (rep x n) (M_C25.rep), which keeps the ~10 KiB records cheap to parse.
+func B(b []byte) string {
+	if len(b) < 96 {
+		return vh.Bytes(b)
+	}
+	var parts []string
+	lit := 0
+	flush := func(end int) {
+		if end > lit {
+			parts = append(parts, vh.Bytes(b[lit:end]))
+		}
+	}
+	for i := 0; i < len(b); {
+		j := i
+		for j < len(b) && b[j] == b[i] {
+			j++
+		}
+		if j-i >= 48 {
+			flush(i)
+			parts = append(parts, fmt.Sprintf("rep %d %d", b[i], j-i))
+			lit = j
+		}
+		i = j
+	}
+	flush(len(b))
+	if len(parts) == 1 && !strings.HasPrefix(parts[0], "rep ") {
+		return parts[0]
+	}
+	return "(" + strings.Join(parts, " ++ ") + ")"
+}
+
+// emitMem validates a record built by ipns.NewRecord directly (no UnmarshalRecord
+// in between): ValidateWithName and Validate on the in-memory record.
+func (h *harness) emitMem(label string, k keyPair, rec *ipns.Record) (int, bool) {
+	raw, err := ipns.MarshalRecord(rec)
+	if err != nil {
+		h.t.Fatal(err)
+	}
+	oracle, future, _, _ := h.oracleFor(k, raw, [][]byte{k.pkb}, B)
+	evwn := ipns.ValidateWithName(rec, k.name)
+	evk := ipns.Validate(rec, k.pk)
+	skb, _ := ic.MarshalPrivateKey(k.sk)
+	how := "ipns.NewRecord(sk, \"/ipfs/bafkqaaa/\"+strings.Repeat(\"p\", n), 9, time.Unix(4102444800, 500), 5*time.Minute, opts...) with key type, options and n / serialized size as in the label; then ValidateWithName(rec, name) and Validate(rec, pk) on the record as returned (no UnmarshalRecord)"
+	rp := map[string]any{"label": label, "name_key": k.kind, "sk_hex": hex.EncodeToString(skb), "raw_len": len(raw), "how": how,
+		"validate_with_name": classify(evwn), "validate": classify(evk)}
+	if len(raw) <= 2048 {
+		rp["raw_hex"] = hex.EncodeToString(raw)
+	}
+	h.cs.Add(vh.App("CMem", k.nameCoq(), vh.Bool(future), B(raw), vh.Bytes(k.pkb), oracle, classify(evwn), classify(evk)), rp)
+	h.st.Case("M|"+k.kind+"|"+label, true)
+	h.st.Count("kind:in-memory")
+	h.st.Count("key:" + k.kind)
+	if evwn == nil || evk == nil {
+		h.st.Count("accepted")
+	} else {
+		h.st.Count("rejected")
+	}
+	h.st.Sample(rp, 8)
+	return len(raw), evwn == nil || evk == nil
+}
+
 func TestC25(t *testing.T) {
 	e := vh.Load(t)
 	r := e.Rng
@@ -538,6 +608,98 @@ func TestC25(t *testing.T) {
 		d := stdDoc(5, true)
 		fs := signedFields(t, ed, cborMap(canon(d.kvs())), d, false, false)
 		h.emit("legacy-ungated:sequence", ed, encFields(withField(fs, vf(5, 999))))
+	}
+
+	// ---------- 0b. records that reach validation without UnmarshalRecord ----------
+	// Built by NewRecord with a long value path; V1 compatibility stores the value twice,
+	// an embedded RSA key and the signatures add to the envelope: the SERIALIZED size
+	// is what the 10 KiB limit is about, not the size of the signed Data.
+	memRecord := func(k keyPair, n int, opts ...ipns.Option) *ipns.Record {
+		p, err := path.NewPath("/ipfs/bafkqaaa/" + strings.Repeat("p", n))
+		if err != nil {
+			t.Fatal(err)
+		}
+		rec, err := ipns.NewRecord(k.sk, p, 9, time.Unix(secFuture, 500), 5*time.Minute, opts...)
+		if err != nil {
+			t.Fatal(err)
+		}
+		return rec
+	}
+	sizeOf := func(rec *ipns.Record) int {
+		raw, err := ipns.MarshalRecord(rec)
+		if err != nil {
+			t.Fatal(err)
+		}
+		return len(raw)
+	}
+	// padTo searches the value length for which the record serialises to exactly target
+	// bytes (per is how often the value occurs in the envelope); ok=false if the
+	// signature length keeps moving (DER) or the parity cannot be met.
+	padTo := func(k keyPair, target, per int, opts ...ipns.Option) (*ipns.Record, bool) {
+		n := target/per - 400
+		for try := 0; try < 30; try++ {
+			rec := memRecord(k, n, opts...)
+			d := target - sizeOf(rec)
+			if d == 0 {
+				return rec, true
+			}
+			if d/per == 0 {
+				if per > 1 {
+					return nil, false
+				}
+				n += d
+			} else {
+				n += d / per
+			}
+		}
+		return nil, false
+	}
+	type memCfg struct {
+		k    keyPair
+		v1   bool
+		opts []ipns.Option
+		tag  string
+	}
+	cfgs := []memCfg{
+		{ed, true, nil, "default"},
+		{ed, false, []ipns.Option{ipns.WithV1Compatibility(false)}, "v2only"},
+		{rsa, true, nil, "default(embedded key)"},
+		{rsa, false, []ipns.Option{ipns.WithV1Compatibility(false)}, "v2only(embedded key)"},
+		{secp, true, nil, "default"},
+		{ecdsa, false, []ipns.Option{ipns.WithV1Compatibility(false), ipns.WithPublicKey(true)}, "v2only+key"},
+	}
+	for ci, c := range cfgs {
+		if !e.Thorough() && ci >= 4 {
+			// quick tier: the two other key types only with the plainly oversize record
+			nq := 6000
+			if !c.v1 {
+				nq = 10100 // Data below the limit; signature and key push the envelope over it
+			}
+			h.emitMem(fmt.Sprintf("in-memory:%s/%s value=%d", c.k.kind, c.tag, nq), c.k, memRecord(c.k, nq, c.opts...))
+			continue
+		}
+		h.emitMem(fmt.Sprintf("in-memory:%s/%s small", c.k.kind, c.tag), c.k, memRecord(c.k, 10, c.opts...))
+		per := 1
+		if c.v1 {
+			per = 2
+		}
+		for _, target := range []int{ipns.MaxRecordSize - 1, ipns.MaxRecordSize, ipns.MaxRecordSize + 1, ipns.MaxRecordSize + 2} {
+			if rec, ok := padTo(c.k, target, per, c.opts...); ok {
+				h.emitMem(fmt.Sprintf("in-memory:%s/%s serialized=%d", c.k.kind, c.tag, target), c.k, rec)
+			} else {
+				st.Count("in-memory:size-not-reached")
+			}
+		}
+		if c.v1 {
+			// Data well below the limit, serialized well above it (the value is stored twice)
+			h.emitMem(fmt.Sprintf("in-memory:%s/%s value=6000", c.k.kind, c.tag), c.k, memRecord(c.k, 6000, c.opts...))
+			h.emitMem(fmt.Sprintf("in-memory:%s/%s value=9900", c.k.kind, c.tag), c.k, memRecord(c.k, 9900, c.opts...))
+		} else {
+			// Data just below the limit, signature (and key) push the envelope over it
+			h.emitMem(fmt.Sprintf("in-memory:%s/%s value=10050", c.k.kind, c.tag), c.k, memRecord(c.k, 10050, c.opts...))
+		}
+		// Data itself above the limit
+		h.emitMem(fmt.Sprintf("in-memory:%s/%s value=10400", c.k.kind, c.tag), c.k, memRecord(c.k, 10400, c.opts...))
 	}
 
 	// ---------- 1. honest records and their single-field mutations ----------
